@@ -498,6 +498,12 @@ func (e *Eval) mapComps(u *types.Map) (string, string) {
 }
 
 func (e *Eval) ghostCount(st *State, name string) {
+	if strings.HasPrefix(name, "$c.") {
+		if e.c.countersBumped == nil {
+			e.c.countersBumped = map[string]bool{}
+		}
+		e.c.countersBumped[name] = true
+	}
 	e.c.DeclComp(name, "Int")
 	e.c.Set(st, name, "(+ "+e.c.Get(st, name)+" 1)")
 }
